@@ -280,6 +280,24 @@ example : (match compile exAllot with
 example : ((Num.run exAllot ⟨[], []⟩ exStore).map Num.Result.obs).toOption =
     some ⟨[⟨"world", "a", 4, "USD"⟩, ⟨"world", "b", 3, "USD"⟩, ⟨"world", "c", 3, "USD"⟩], [], [], []⟩ := by decide +kernel
 
+/-! … and a source allotment: one third from `@b`, the rest from an ordered source with a capped overdraft -/
+def exSrcAllot : Script :=
+  ⟨[], [.send (.mon (.mon (.asset "USD") 9))
+          (.allot [(.const ⟨1, 3⟩, .acct (.acct "b") .none),
+            (.remaining, .inorder (.cons (.maxed (.mon (.asset "USD") 2) (.acct (.acct "c") (.upTo (.mon (.asset "USD") 5))))
+              (.cons (.acct (.acct "world") .none) .nil)))])
+          (.acct (.acct "alice"))]⟩
+
+example : Script.frag exSrcAllot := ⟨by simp [exSrcAllot], by intro s hs; simp [exSrcAllot] at hs; subst hs; decide⟩
+
+example : (match compile exSrcAllot with
+    | .ok prog => (match VM.run prog ⟨[], []⟩ exStore with | .ok r => some r.obs | _ => none)
+    | .error _ => none) =
+    some ⟨[⟨"b", "alice", 3, "USD"⟩, ⟨"c", "alice", 2, "USD"⟩, ⟨"world", "alice", 4, "USD"⟩], [], [], []⟩ := by decide +kernel
+
+example : ((Num.run exSrcAllot ⟨[], []⟩ exStore).map Num.Result.obs).toOption =
+    some ⟨[⟨"b", "alice", 3, "USD"⟩, ⟨"c", "alice", 2, "USD"⟩, ⟨"world", "alice", 4, "USD"⟩], [], [], []⟩ := by decide +kernel
+
 /-- invariant of the cache: every entry is the compilation of some text with that digest -/
 def CacheInv {Text Key Prog : Type} (H : Text → Key) (compile : Text → Option Prog) (c : Cache.Store Key Prog) : Prop :=
   ∀ kp ∈ c, ∃ t, kp.1 = H t ∧ compile t = some kp.2
